@@ -349,8 +349,15 @@ theorem regSet_of_spec {st : Init} {env : Env} (hr : Rel st env) (qs : List Arg)
         obtain ⟨ex', he, _, h4⟩ := resolveQs_of_spec hr 0 qs xs h1 (fun l hl => absurd hl (hno l)) 0 (Or.inl rfl)
         have hex : ex' = 0 := h4 (fun ⟨l, hl⟩ => hno l hl)
         subst hex
+        have hany : xs.any isWhole = false := by
+          rw [List.any_eq_false]
+          intro x hx
+          cases x with
+          | inl q => simp [isWhole]
+          | inr l => exact absurd hx (hno l)
         refine ⟨?_, ?_⟩
-        · simp only [regSet, he, ne_eq, not_true_eq_false, if_false, Except.ok.injEq, List.cons.injEq, and_true]
+        · simp only [regSet, he, ne_eq, not_true_eq_false, if_false, hany, Bool.false_eq_true, Except.ok.injEq,
+            List.cons.injEq, and_true]
           apply List.map_congr_left
           intro x hx
           cases x with
